@@ -83,3 +83,20 @@ V('C12', 'neg-score-renamed', P, 'edb.edgeql.compiler.polyres.find_callable',
                     barg.param.get_type(ctx.env.schema), ctx.env.schema)
                 for barg in call.args if barg.param is not None)
 ''', None)
+
+V('C12', 'right-operand-uses-left-op', 'edb/edgeql/compiler/typegen.py', 'edb.edgeql.compiler.typegen._ql_typeexpr_get_types',
+  'if right_op is None or right_op == ql_t.op else', 'if right_op is None or left_op == ql_t.op else', 'C12.R7', '_ql_typeexpr_get_types:mirror')
+V('C12', 'union-fold-dedented', 'edb/schema/utils.py', 'edb.schema.utils.ensure_union_type',
+  '''            if common_type is None:
+                raise _union_error(schema, types)
+            else:
+                uniontype = common_type
+''', '''            if common_type is None:
+                raise _union_error(schema, types)
+        else:
+            uniontype = common_type
+''', 'C12.R8', 'ensure_union_type:fold=uniontype')
+V('C12', 'tuple-id-without-names', 'edb/server/compiler/sertypes.py', 'edb.server.compiler.sertypes._describe_tuple',
+  '''    type_id = _get_collection_type_id(
+        t.get_schema_name(), subtypes, element_names)''', '''    type_id = _get_collection_type_id(
+        t.get_schema_name(), subtypes)''', 'C12.R6', '_describe_tuple:list=element_names')
